@@ -18,11 +18,14 @@ for k in $(seq 1 $J); do
 done
 order_for() { # relevance order by package of the mutated file
   case "$1" in
-    sourcemap/*) echo "C09 C08 C14 C01 C02 C03 C04 C05 C06 C07 C10 C11 C12 C13 C15 C16";;
-    lexer/*)     echo "C10 C07 C02 C15 C08 C12 C04 C13 C01 C06 C03 C05 C11 C16 C09 C14";;
-    token/*)     echo "C10 C02 C05 C12 C01 C03 C04 C06 C07 C08 C11 C13 C15 C16 C09 C14";;
-    parser/*)    echo "C02 C12 C11 C13 C05 C04 C16 C03 C06 C01 C15 C08 C07 C10 C09 C14";;
-    *)           echo "C03 C06 C15 C08 C07 C01 C11 C02 C04 C05 C12 C13 C16 C10 C09 C14";;
+    # C14 (race-instrumented build, ~1 min) only where instance isolation is the likely victim
+    sourcemap/*) echo "C09 C08 C01 C02 C03 C04 C05 C06 C07 C10 C11 C12 C13 C15 C16 C14";;
+    compiler/*)  echo "C06 C03 C15 C08 C07 C01 C14 C11 C02 C04 C05 C12 C13 C16 C10 C09";;
+    */builder.go) echo "C05 C04 C13 C12 C14 C02 C11 C16 C03 C06 C01 C15 C08 C07 C10 C09";;
+    lexer/*)     echo "C10 C07 C02 C15 C08 C12 C04 C13 C01 C06 C03 C05 C11 C16 C09";;
+    token/*)     echo "C10 C02 C05 C12 C01 C03 C04 C06 C07 C08 C11 C13 C15 C16 C09";;
+    parser/*)    echo "C02 C12 C11 C13 C05 C04 C16 C03 C06 C01 C15 C08 C07 C10 C09";;
+    *)           echo "C03 C06 C15 C08 C07 C01 C11 C02 C04 C05 C12 C13 C16 C10 C09";;
   esac
 }
 one() { # $1 = slot, $2 = id
